@@ -111,6 +111,133 @@ def job(args):
     return out
 
 
+def iv_job(args):
+    """costIV with target_state (every ordered subset) on loss objects constructed with the initial state given as float
+    list, integer list, integer array or float array: the cost must be that of the trajectory started from the supplied
+    (fractional) initial values in the named states and the constructor's values elsewhere"""
+    name, seed = args
+    out = {"name": name, "viol": [], "runs": 0, "nontrivial": 0}
+    c = detmodels.CATALOGUE[name]
+    d = c["d"]
+    states, params = d["states"], d["params"]
+    theta_gen = c["theta"][0]
+    theta = [v * 1.13 for v in theta_gen]
+    x0f = [float(round(v)) + (1.0 if round(v) == 0 and i == 0 else 0.0) for i, v in enumerate(c["x0"][0])]   # whole numbers
+    t0 = 0.0
+    times = np.linspace(0.5, 3.0, 6)
+    tss = [list(q) for r in range(1, len(states) + 1) for q in itertools.permutations(states, r)]
+    conts = {"float-list": lambda v: [float(x) for x in v], "int-list": lambda v: [int(x) for x in v],
+             "int-array": lambda v: np.array(v, dtype=int), "float-array": lambda v: np.array(v, dtype=float)}
+    for kind in ("Square", "Poisson"):
+        cols = states[-2:] if len(states) > 1 else states[:1]
+        y = observations(name, d, theta_gen, x0f, t0, times, cols, kind)
+        p = y.shape[1]
+        yin = y[:, 0].copy() if p == 1 else y.copy()
+        for ts in tss:
+            for cname, conv in conts.items():
+                xin = [x0f[states.index(s)] * 1.07 + 0.43 for s in ts]
+                x0_used = list(x0f)
+                for s_, v_ in zip(ts, xin):
+                    x0_used[states.index(s_)] = v_
+                sig = {"loss": kind, "entry": "costIV-target_state", "x0": cname, "target_state": "model-order" if ts == [q for q in states if q in ts] else "permuted"}
+                case = {"model": name, "loss": kind, "state_name": cols, "theta": theta, "x0_constructor": x0f, "x0_container": cname, "target_state": ts, "initial_values_supplied": xin}
+                try:
+                    m, _ = build.build(d)
+                    m.parameters = list(theta_gen)
+                    obj = lossref.make_loss(kind, list(theta), m, conv(x0f), t0, times, yin, cols if p > 1 else cols[0], target_state=ts)
+                    got = float(obj.costIV(list(theta) + xin))
+                except Exception as e:
+                    out["viol"].append((dict(sig, what="raised"), dict(case, error="%s: %s" % (type(e).__name__, str(e)[:300]))))
+                    continue
+                out["runs"] += 1
+                sol = detmodels.reference_solution(name, theta, x0_used, t0, times, d=d)
+                yhat = sol[:, [states.index(cc) for cc in cols]]
+                if kind == "Poisson" and np.min(yhat) <= 0:
+                    continue
+                want = lossref.loss_value(kind, y, yhat, None, None)
+                if abs(got - want) > 1e-6 * (1 + abs(want)):
+                    out["viol"].append((dict(sig, what="value"), dict(case, got=got, want=want)))
+                    continue
+                base = lossref.loss_value(kind, y, detmodels.reference_solution(name, theta, x0f, t0, times, d=d)[:, [states.index(cc) for cc in cols]], None, None)
+                if abs(base - want) > 1e-3 * (1 + abs(want)):
+                    out["nontrivial"] += 1
+    return out
+
+
+NEAR = 9e-6      # a relative step that a "same input?" test with numpy's default tolerances would call equal
+
+
+def seq_job(args):
+    """a multi-step sequence on ONE loss object (a cache of the last solution, state left behind by a previous call, would
+    show): evaluations at a point, at points a hair away from it, somewhere else and back, through cost / residual / costIV,
+    each compared with the reference at exactly its own argument"""
+    name, kind, cols, seed = args
+    out = {"name": name, "viol": [], "runs": 0, "nontrivial": 0}
+    c = detmodels.CATALOGUE[name]
+    d = c["d"]
+    states = d["states"]
+    theta_gen, x0 = c["theta"][0], c["x0"][0]
+    t0 = 0.0
+    times = np.linspace(0.5, 4.0, 8)
+    y = observations(name, d, theta_gen, x0, t0, times, cols, kind)
+    n, p = y.shape
+    yin = y[:, 0].copy() if p == 1 else y.copy()
+    th_a = [v * 1.13 for v in theta_gen]
+    th_b = list(c["theta"][1])
+    near1 = [v * (1 + NEAR) for v in th_a]
+    near2 = [v * (1 + NEAR) ** 2 for v in th_a]
+    x0n = [v * (1 + NEAR) + 1e-9 for v in x0]
+    seq = [("cost", th_a, x0), ("cost", near1, x0), ("residual", near2, x0), ("cost", th_b, x0), ("cost", th_a, x0),
+           ("costIV", th_a, x0n), ("costIV", near1, x0n), ("cost", near1, x0), ("residual", th_a, x0), ("cost", theta_gen, x0)]
+    sig = {"loss": kind, "entry": "sequence", "nstates": p}
+    try:
+        m, _ = build.build(d)
+        m.parameters = list(theta_gen)
+        obj = lossref.make_loss(kind, list(theta_gen), m, list(x0), t0, times, yin, cols if p > 1 else cols[0])
+    except Exception as e:
+        out["viol"].append((dict(sig, what="raised"), {"model": name, "loss": kind, "state_name": cols, "error": "%s: %s" % (type(e).__name__, e)}))
+        return out
+    prev = None
+    cur_x0 = list(x0)
+    for k, (entry, th, xx) in enumerate(seq):
+        # the loss object is stateful by design: costIV leaves its initial values behind as the current initial state (as
+        # cost(theta) leaves theta behind for cost()), so what follows a costIV starts from them
+        if entry == "costIV":
+            cur_x0 = list(xx)
+        xx = cur_x0
+        try:
+            got = obj.cost(list(th)) if entry == "cost" else obj.residual(list(th)) if entry == "residual" else obj.costIV(list(th) + list(xx))
+        except Exception as e:
+            out["viol"].append((dict(sig, what="raised", step=entry), {"model": name, "loss": kind, "state_name": cols, "step": k, "error": "%s: %s" % (type(e).__name__, e)}))
+            break
+        out["runs"] += 1
+        sol = detmodels.reference_solution(name, th, xx, t0, times, d=d)
+        yhat = sol[:, [states.index(cc) for cc in cols]]
+        if kind in ("Poisson", "Gamma", "NegBinom") and np.min(yhat) <= 0:
+            continue
+        if entry == "residual":
+            want = y - yhat
+            g = np.asarray(got, float).reshape(want.shape)
+            ok = np.allclose(g, want, rtol=1e-6, atol=1e-7)
+            val = float(np.sum(want))
+            gotv, wantv = g.tolist(), want.tolist()
+        else:
+            want = lossref.loss_value(kind, y, yhat, None, None)
+            ok = abs(float(got) - want) <= 1e-6 * (1 + abs(want))
+            val = want
+            gotv, wantv = float(got), want
+        if not ok:
+            out["viol"].append((dict(sig, what="value-in-sequence", step=entry),
+                                {"model": name, "loss": kind, "state_name": cols, "step": k, "sequence": [(e_, list(t_), list(x_)) for e_, t_, x_ in seq[:k + 1]],
+                                 "got": gotv, "want": wantv}))
+            break
+        # the neighbouring points must be distinguishable at the tolerance used, else the step proves nothing
+        if prev is not None and prev[0] == entry and abs(val - prev[1]) > 3e-6 * (1 + abs(val)):
+            out["nontrivial"] += 1
+        prev = (entry, val)
+    return out
+
+
 def main(argv=None):
     run = report.Run("C06", "exploration")
     env.load_pygom()
@@ -149,6 +276,14 @@ def main(argv=None):
         for i in range(0, len(cfgs), chunk):
             jobs.append((nme, cfgs[i:i + chunk], run.seed))
     res = pool.pmap(job, jobs, chunksize=1)
+    sjobs = [(nme, kind, cols, run.seed) for nme in models for kind in lossref.LOSSES
+             for cols in ordered_subsets(detmodels.CATALOGUE[nme]["d"]["states"])[-2:]]
+    sres = pool.pmap(seq_job, sjobs, chunksize=1)
+    run.count("sequence-leg evaluations", sum(r["runs"] for r in sres))
+    run.count("sequence-leg steps where neighbouring points are distinguishable", sum(r["nontrivial"] for r in sres))
+    ivres = pool.pmap(iv_job, [(nme, run.seed) for nme in (["Chain3", "Asym23"] if quick else ["Chain3", "Asym23", "Lotka_Volterra", "SEIR", "Logistic"])], chunksize=1)
+    run.count("costIV-with-target_state evaluations", sum(r["runs"] for r in ivres))
+    res = res + sres + ivres
     runs = sum(r["runs"] for r in res)
     nt = sum(r["nontrivial"] for r in res)
     for r in res:
@@ -162,7 +297,10 @@ def main(argv=None):
                 "reverse) x 5 loss classes x spread {default, scalar, per-state, per-observation} x weights {none, per-state, per-observation} x "
                 "target_param (every ordered subset) x entries {cost(theta), cost(), residual, costIV} x observation grids {uniform, non-uniform "
                 "with fractional t0, integer-typed with fractional t0}%s: compared (1e-6) with independent loss formulas applied to the reference "
-                "trajectory; square loss at the generating parameters <= 1e-10. non-trivial = observed columns differ by >1e-2 and rows by >1e-3" % (
+                "trajectory; square loss at the generating parameters <= 1e-10. sequence leg: on ONE loss object per (model, loss, selection) ten "
+                "evaluations through cost / residual / costIV at a point, at points a relative 9e-6 away, elsewhere and back, each compared "
+                "with the reference at exactly its argument. target_state leg: costIV for every ordered target_state subset on objects "
+                "constructed with x0 as float list / integer list / integer array / float array and fractional initial values supplied. non-trivial = observed columns differ by >1e-2 and rows by >1e-3" % (
                     models, " (quick: every second configuration, selected by VERIF_SEED)" if quick else ""),
         "configurations": total,
     })
